@@ -1,6 +1,7 @@
 import Ymq.Drv.Util
 import Ymq.Model.Gf2Small
 import Ymq.Model.Gf2Genblock
+import Ymq.Model.Gf2Lanczos
 
 /-!
 Driver for the 64x64 core of matrix/gf2.rs (C14 "small"). Formats as in harness/src/ops_gf2small.rs:
@@ -91,6 +92,19 @@ def handleGf2Small : Handler
       | .panic => some "panic"
       | .exhausted k => some s!"limit {k}"
       | .accepted k _ => some s!"ok {k + 1}"
+    | "lanczos_replay", [nrows, ncols, data, y0] => do
+      -- the initial block and the main loop of kernel_lanczos from the block returned by genblock
+      let nrows ← parseNat nrows; let ncols ← parseNat ncols
+      let cols ← parseSparseS ncols data
+      let y0 ← parseWordsS y0
+      let b := Ymq.Gf2.qsOptimize nrows cols
+      match Ymq.Gf2Lanczos.lanczosInit dbg b y0 with
+      | none => some "panic"
+      | some (st, ay) =>
+        match Ymq.Gf2Lanczos.lanczosLoop dbg b ay 100000 st [] with
+        | none => some "panic"
+        | some (st', its) =>
+          some ("|".intercalate (its.map (fun it => s!"{showHexS it.1}/{showMat it.2.1}/{showMat it.2.2}") ++ [showMat st'.y]))
     | _, _ => none
   | _ => none
 
